@@ -594,6 +594,14 @@ Proof.
       exact (apply_inv (MS (hs s) (draws s) None) (SNew v) IH' I).
 Qed.
 
+(* the empty string is never a live handle when no drawn key is empty (Rust: keys start with "handle:") *)
+Lemma reachable_no_empty s :
+  (forall i, rnd i <> []) -> reachable s -> hs s !! ([] : str) = None.
+Proof.
+  intros Hne R. destruct (hs s !! ([] : str)) eqn:E; [|reflexivity].
+  destruct (reachable_inv s R [] ) as (i & _ & Hi); [eauto|]. symmetry in Hi. now apply Hne in Hi.
+Qed.
+
 Hypothesis rnd_inj : forall i j, rnd i = rnd j -> i = j.
 
 (* handles are distinct while live: a newly allocated handle is not the name of a live collection,
@@ -882,6 +890,86 @@ Proof.
   - rewrite !bool_decide_eq_false_2; [done| |]; intros [? ?]; discriminate.
 Qed.
 
+Theorem refines_script c args s o :
+  loop_free_script c = true -> step_script rnd c args s = Some o -> o = Done (step_s c args s).
+Proof.
+  destruct c; cbn [loop_free_script step_script]; intros H E; try discriminate; injection E as <-;
+    auto using rs_array_is_empty, rs_map_is_empty, rs_set_is_empty, rs_map_contains_key.
+Qed.
+
+(* array_contains: the for-in loop finds the least index (or answers "false"); the only assumption
+   is that the empty string is not the name of a live collection (the script blanks the handle
+   variable to leave the loop) *)
+Lemma ac_loop_spec s h l value :
+  hs s !! h = Some (HList l) -> hs s !! ([] : str) = None ->
+  forall fuel it idx0, (it <= length l)%nat -> (length l - it < fuel)%nat ->
+  exists v', ac_loop fuel value it (AC idx0 h it) s = Done v' /\
+             ac_index v' = match find_index value (drop it l) it with
+                           | Some n => dec_nat n | None => idx0 end.
+Proof.
+  intros Hh He. induction fuel as [|f IH]; intros it idx0 Hit Hf; [lia|].
+  cbn [ac_loop]. unfold next_iteration. cbn [ac_arg1]. rewrite Hh.
+  destruct (l !! it) as [e|] eqn:El; cbn [fmap option_fmap option_map].
+  - rewrite (drop_S l e it El). cbn [find_index ac_index ac_arg1 ac_counter].
+    destruct (str_eqb (elem_str e) value) eqn:Ev.
+    + apply lookup_lt_Some in El. destruct f as [|f']; [lia|]. cbn [ac_loop ac_arg1 ac_index ac_counter].
+      eexists. split; [unfold next_iteration; cbn [ac_arg1]; rewrite He; reflexivity|reflexivity].
+    + apply lookup_lt_Some in El. apply (IH (S it) idx0); lia.
+  - apply lookup_ge_None in El. rewrite drop_ge by lia. cbn [find_index]. eexists. split; reflexivity.
+Qed.
+Lemma rs_array_contains args s :
+  hs s !! ([] : str) = None -> script_array_contains args s = Done (step_s CArrayContains args s).
+Proof.
+  intros He. unfold script_array_contains. destruct args as [|h [|v rest]]; try reflexivity.
+  open_spec. unfold look_list, ac_fuel. destruct (hs s !! h) as [[l|m|x|t]|] eqn:Eh;
+    try (cbn [ac_loop ac_arg1]; unfold next_iteration; rewrite Eh; reflexivity).
+  destruct (ac_loop_spec s h l v Eh He (S (S (length l))) 0%nat s_false) as (v' & E & Hi); [lia|lia|].
+  rewrite E, Hi, drop_0. reflexivity.
+Qed.
+
+
+(* set_from_array: the loop of set_put calls builds exactly the set of the items; the only
+   assumption is that the key drawn for the new set is not live (theorem fresh_handle) *)
+Lemma sfa_loop_spec a1 key l :
+  a1 <> key ->
+  forall fuel it s x, (it <= length l)%nat -> (length l - it < fuel)%nat ->
+  hs s !! a1 = Some (HList l) -> hs s !! key = Some (HSet x) ->
+  sfa_loop fuel a1 key it s =
+  Done (None, with_hs s (<[key := HSet (x ∪ list_to_set (elem_str <$> drop it l))]> (hs s))).
+Proof.
+  intros Hne. induction fuel as [|f IH]; intros it s x Hit Hf Ha Hk; [lia|].
+  cbn [sfa_loop]. unfold next_iteration. rewrite Ha.
+  destruct (l !! it) as [e|] eqn:El; cbn [fmap option_fmap option_map].
+  - rewrite (r_set_put rnd ord [key; elem_str e] s). unfold step_s. cbv beta iota zeta delta [spec].
+    unfold on, look_set. rewrite Hk. cbn [apply].
+    apply lookup_lt_Some in El as Hlt.
+    rewrite (IH (S it) _ (x ∪ list_to_set [elem_str e])); [|lia|lia| |].
+    + cbn [with_hs hs draws stale]. rewrite insert_insert. rewrite (drop_S l e it El).
+      do 5 f_equal. apply leibniz_equiv. cbn [fmap list_fmap list_to_set]. set_solver.
+    + cbn [with_hs hs]. rewrite lookup_insert_ne by congruence. exact Ha.
+    + cbn [with_hs hs]. apply lookup_insert.
+  - apply lookup_ge_None in El. rewrite drop_ge by lia. cbn [fmap list_fmap list_to_set].
+    rewrite union_empty_r_L, (insert_id _ _ _ Hk), with_hs_id. reflexivity.
+Qed.
+Lemma rs_set_from_array args s :
+  hs s !! rnd (draws s) = None ->
+  script_set_from_array rnd args s = Done (step_s CSetFromArray args s).
+Proof.
+  intros Hfresh. unfold script_set_from_array. destruct args as [|a1 rest]; [reflexivity|].
+  rewrite (r_is_array rnd ord [a1] s). open_spec. cbn [apply].
+  unfold look_list. destruct (hs s !! a1) as [[l|m|x|t]|] eqn:Ea; cbn [ok_bool bool_str];
+    try (replace (str_eqb s_false s_true) with false
+           by (symmetry; apply bool_decide_eq_false_2; discriminate); reflexivity).
+  rewrite str_eqb_refl. rewrite (r_set_new rnd ord [] s). unfold step_s at 1.
+  cbv beta iota zeta delta [spec]. cbn [apply put_handle list_to_set].
+  set (key := rnd (draws s)) in *.
+  assert (Hne : a1 <> key) by (intros ->; congruence).
+  rewrite (sfa_loop_spec a1 key l Hne _ 0%nat _ ∅); [|lia|lia| |].
+  - cbn [with_hs hs draws stale]. rewrite insert_insert, drop_0, union_empty_l_L. reflexivity.
+  - cbn [hs]. rewrite lookup_insert_ne by congruence. exact Ea.
+  - cbn [hs]. apply lookup_insert.
+Qed.
+
 Theorem step_h_script c args s :
   loop_free_script c = true -> step_h rnd ord c args s = Done (step_s c args s).
 Proof.
@@ -902,13 +990,6 @@ Proof.
       - now apply step_h_script. }
     rewrite E. destruct (step_s c args s) as [r s'].
     rewrite IH. now destruct (run_s rnd ord ops s').
-Qed.
-
-Theorem refines_script c args s o :
-  step_script c args s = Some o -> o = Done (step_s c args s).
-Proof.
-  destruct c; cbn [step_script]; intros E; try discriminate; injection E as <-;
-    auto using rs_array_is_empty, rs_map_is_empty, rs_set_is_empty, rs_map_contains_key.
 Qed.
 End ScriptRefine.
 
@@ -939,10 +1020,11 @@ Proof.
   - unfold str_eqb. destruct (decide (elem_str e = v)) as [Ev|Ev].
     + rewrite bool_decide_eq_true_2 by exact Ev. split; [discriminate|].
       intros H. exfalso. apply H. rewrite Ev. apply elem_of_list_here.
-    + rewrite bool_decide_eq_false_2 by exact Ev. rewrite IH. rewrite not_elem_of_cons. tauto.
+    + rewrite bool_decide_eq_false_2 by exact Ev. rewrite IH. rewrite not_elem_of_cons.
+      split; [intros H; split; [congruence|exact H]|intros [_ H]; exact H].
 Qed.
 (* map_contains_value: some key is bound to the value *)
-Lemma map_values_spec v (m : gmap str elem) :
+Lemma map_values_spec (v : str) (m : gmap str elem) :
   v ∈ map_values m <-> exists k e, m !! k = Some e /\ elem_str e = v.
 Proof.
   unfold map_values. rewrite elem_of_list_fmap. split.
@@ -952,7 +1034,7 @@ Proof.
     apply elem_of_list_fmap. exists (k, e). split; [reflexivity|]. now apply elem_of_map_to_list.
 Qed.
 (* set_from_array: exactly the items of the array, as text *)
-Lemma set_from_array_spec (l : list elem) v :
+Lemma set_from_array_spec (l : list elem) (v : str) :
   v ∈ (list_to_set (elem_str <$> l) : gset str) <-> exists e, e ∈ l /\ elem_str e = v.
 Proof.
   rewrite elem_of_list_to_set, elem_of_list_fmap. split; intros (e & H1 & H2); eauto.
